@@ -445,7 +445,10 @@ convert_drcs(cache_page *vtp, uint8_t *raw)
 			break;
 
 		case DRCS_MODE_6_5_4:
-			for (j = 0; j < 20; p += 4, d += 6, j++) {
+			/* One PTU: five rows of six pixels in four
+			   planes (20 bytes), each pixel doubled in
+			   both directions to 12 x 10 (60 bytes). */
+			for (j = 0; j < 5; p += 4, d += 12, j++) {
 				q = expand[p[0] & 0x3F]
 				  + expand[p[1] & 0x3F] * 2
 				  + expand[p[2] & 0x3F] * 4
@@ -456,6 +459,7 @@ convert_drcs(cache_page *vtp, uint8_t *raw)
 				d[3] = ((q >> 12) & 15) * 0x11;
 				d[4] = ((q >> 16) & 15) * 0x11;
 				d[5] = (q >> 20) * 0x11;
+				memcpy (d + 6, d, 6);
 			}
 			break;
 
